@@ -36,7 +36,7 @@ def main():
         base = set(json.load(open("/root/.vp/BASELINE.json"))["stable_pass"])
         res = {}
         for tc in ET.parse(xml).iter("testcase"):
-            name = f"{tc.get('classname')}::{tc.get('name')}"
+            name = f"{tc.get('classname')}::{tc.get('name')}".replace(str(wt), "/repo")
             res[name] = "fail" if any(c.tag in ("failure", "error") for c in tc) else ("skip" if any(c.tag == "skipped" for c in tc) else "pass")
         broken = sorted(n for n in base if res.get(n) != "pass")
         out["suite"] = {"tests": len(res), "passed": sum(v == "pass" for v in res.values()), "stable_tests_not_passing": broken}
@@ -44,7 +44,8 @@ def main():
     out["confirmed"] = bool(out.get("patch_applies") and out["demo_clean_exit"] == 0 and out.get("demo_patched_exit", 0) != 0
                             and not out.get("suite", {}).get("stable_tests_not_passing", ["x"]))
     (seed / "confirm.json").write_text(json.dumps(out, indent=1) + "\n")
-    print(seed.name, out["confirmed"], out.get("suite", {}).get("stable_tests_not_passing"))
+    bad = out.get("suite", {}).get("stable_tests_not_passing", [])
+    print(seed.name, out["confirmed"], len(bad), [b[-60:] for b in bad[:3]])
 
 
 if __name__ == "__main__":
